@@ -174,6 +174,67 @@ def lookup_tie(rep, db, S, variant):
         s.add(z3.Or([r.cols[dcol].t != m.eval(r.cols[dcol].t, model_completion=True) for r in rows]))
 
 
+def reference_paths_tie(rep):
+    """Concrete tie (fixed data, NOT solver-chosen): an object of a subclass first reached through each kind of reference - many-to-one,
+    the column-less side of a one-to-one, a one-to-many and a many-to-many collection typed with the base class - has its own class,
+    also when it is looked up again later in the session."""
+    from pony.orm import Database, PrimaryKey, Required, Optional, Set, db_session
+    db = Database()
+    class Person(db.Entity):
+        id = PrimaryKey(int)
+        passport = Optional('Passport')
+        notes = Set('Note')
+        team = Optional('Team')
+        clubs = Set('Club')
+    class Grad(Person):
+        thesis = Optional(str)
+    class Passport(db.Entity):
+        id = PrimaryKey(int)
+        person = Required(Person)
+    class Note(db.Entity):
+        id = PrimaryKey(int)
+        author = Required(Person)
+    class Team(db.Entity):
+        id = PrimaryKey(int)
+        members = Set(Person)
+    class Club(db.Entity):
+        id = PrimaryKey(int)
+        members = Set(Person)
+    db.bind('sqlite', ':memory:'); db.generate_mapping(create_tables=True)
+    with db_session:
+        t = Team(id=1); c = Club(id=1)
+        p1 = Person(id=1, team=t, clubs=[c]); g2 = Grad(id=2, thesis='x', team=t, clubs=[c])
+        Passport(id=1, person=p1); Passport(id=2, person=g2); Note(id=1, author=p1); Note(id=2, author=g2)
+    paths = {
+        'one-to-one (column on the other side)': lambda: [Passport[2].person],
+        'many-to-one': lambda: [Note[2].author],
+        'one-to-many collection': lambda: [x for x in Team[1].members if x.id == 2],
+        'many-to-many collection': lambda: [x for x in Club[1].members if x.id == 2],
+        'query over the base class': lambda: list(Person.select(lambda p: p.id == 2)),
+    }
+    known = {e['key'] for e in __import__('engine.core', fromlist=['load_known']).load_known('C27')}
+    for name, reach in paths.items():
+        bad = []
+        try:
+            with db_session:
+                objs = reach()
+                if len(objs) != 1: bad.append('reached %d objects' % len(objs))
+                for o in objs:
+                    if type(o) is not Grad: bad.append('reached as %s' % type(o).__name__)
+                    try:
+                        if o.thesis != 'x': bad.append('thesis %r' % (o.thesis,))
+                    except AttributeError: bad.append('no attribute thesis')
+                again = Person[2]
+                if type(again) is not Grad: bad.append('Person[2] afterwards is %s' % type(again).__name__)
+        except Exception as ex:
+            bad.append('%s: %s' % (type(ex).__name__, str(ex)[:80]))
+        nm = 'reference path: ' + name
+        key = 'm2m-collection-items-not-refined' if name.startswith('many-to-many') else None
+        if not bad: rep.add(Ob(nm, 'concrete-tie', HOLDS))
+        else: rep.add(Ob(nm, 'concrete-tie', CEX, detail='; '.join(bad), cex={'path': name, 'wrong': bad}, reproduced=True, key=key,
+                         replay='# C27: a Grad row reached through %s: %s (see checks/c27.py reference_paths_tie)\nraise SystemExit(1)\n' % (name, '; '.join(bad))))
+
+
 def class_tie(rep, db, S, variant, src, scope):
     """Concrete tie on solver-chosen databases: run the real query in a fresh session and compare the CLASS of every returned
     object with the class its row's discriminator denotes (objects keep their class however they are reached)."""
@@ -246,6 +307,7 @@ def run(tier, seed, only=None):
                     and not any(src.startswith(pfx) for pfx in ('(b.y', '(d.w', '(d.y', '(h.k')):
                 class_tie(rep, db, S, variant, src, prog.scope)
     c01._cache.pop('sqlite', None)
+    if not only or only == 'paths': reference_paths_tie(rep)
     rep.programs = n
     rep.bounds = {'hierarchy': 'A <- B <- D, A <- C (string and integer codes); diamond A <- B, A <- C <- E, F(B, E); H.ref -> A (optional), A.hs reverse set', 'rows per table': R,
                   'discriminator': 'symbolic per row over the declared codes (string codes and integer codes 1..4)', 'programs': len(PROGRAMS)}
